@@ -11,6 +11,43 @@ except ImportError:
 
 hooks = subprocess.run(["git", "-C", "/repo", "log", "--format=%h", "--", "verif_hooks.go"],
                        stdout=subprocess.PIPE, text=True).stdout.split()
+def _serves(test, profile=None):
+    out = []
+    for pid in sorted(PROPS):
+        for e in PROPS[pid]["engines"]:
+            if e["test"] == test and (profile is None or e.get("env", {}).get("quick", {}).get("VERIF_PROFILE") == profile):
+                out.append(pid)
+                break
+    return out
+
+
+ENGINES = [
+    {"name": "E1-codec", "path": "harness/e1_codec_test.go", "serves_properties": _serves("TestE1Codec"),
+     "kind_free_text": "differential: bytes produced/consumed by the real converters, protobuf-go and encoding/json vs. the Lean byte-level codecs (records, six RPC messages, Configuration, snapshot metadata), both directions, truncated inputs, MiB records on the real log file"},
+    {"name": "E1-transport", "path": "harness/e1_transport_test.go", "serves_properties": _serves("TestE1Transport"),
+     "kind_free_text": "two real gRPC transports on loopback: what the handler and the caller see vs. what was passed in; shut down and run again"},
+    {"name": "E2-log-crash", "path": "harness/fstrace.go, harness/e2_fstrace_test.go, harness/e2_program.go", "serves_properties": _serves("TestE2LogCrash"),
+     "kind_free_text": "fault enumeration + correspondence: operation scripts (directed pairs + seeded) on the real log under strace; crash images from the observed syscalls at every syscall and byte; real recovery on every image vs. sequential spec and the Lean replay"},
+    {"name": "E2-state-snapshot-crash", "path": "harness/e2_statesnap_test.go", "serves_properties": _serves("TestE2StateSnapCrash"),
+     "kind_free_text": "the same for the term/vote and snapshot storages, incl. live reads while writers are open and a whole node constructed over every image"},
+    {"name": "E3-appendEntries / E3-requestVote / E3-election / E3-installSnapshot", "path": "harness/e3_handlers_test.go, harness/e3_vote_test.go, harness/e3_sections_test.go, harness/e3_install_test.go", "serves_properties": _serves("TestE3AppendEntries"),
+     "kind_free_text": "differential: one critical section of the real node over real storage vs. the Lean model function through the line-protocol driver, on the property's domain, plus the property's statements as implementation-side oracles"},
+    {"name": "E3-leader", "path": "harness/e3_leader_test.go", "serves_properties": _serves("TestE3Leader"),
+     "kind_free_text": "a started real node driven through submissions, reads, membership calls, heartbeats, replies in any order, second leaderships; compared with the model under every order in which the commit/apply/read-only loops may take the wake-ups"},
+    {"name": "E3-lifecycle", "path": "harness/e3_lifecycle_test.go", "serves_properties": _serves("TestE3Lifecycle"),
+     "kind_free_text": "restore / Start / Restart / Stop over generated directories vs. Model/Lifecycle; every state machine instance sees strictly increasing indices"},
+    {"name": "E4-walks (static, reads, lease, churn, snap, crash, snapmember)", "path": "harness/e4_cluster_test.go, harness/sim.go, harness/node.go", "serves_properties": _serves("TestE4Walks"),
+     "kind_free_text": "search: seeded scheduler walks over 1-5 real nodes in a synctest bubble (virtual time, parked transport, real storage, crash images, armed crash points, slow snapshots, membership changes); all property oracles after every action and after a fault-free period"},
+    {"name": "E4-directed", "path": "harness/e4_directed_test.go", "serves_properties": _serves("TestE4Directed"),
+     "kind_free_text": "directed schedules on real nodes: one per confirmed finding (present or repaired) and per scenario the seeded changes called for"},
+    {"name": "E5-api / E5-options", "path": "harness/e5_api_test.go, harness/e5_options_test.go", "serves_properties": sorted(set(_serves("TestE5API") + _serves("TestE5Options"))),
+     "kind_free_text": "public API words on one node of a live cluster (no panic, no hang, futures resolve); table of timing options; late Await"},
+    {"name": "E6-race", "path": "harness/e6_race_test.go", "serves_properties": _serves("TestE6Race"),
+     "kind_free_text": "search only: real-time stress under the race detector"},
+    {"name": "extract", "path": "harness/cmd/extract/main.go", "serves_properties": ["C18", "C20"],
+     "kind_free_text": "translator: go/ast facts (String tables, lock skeleton with access kinds, entry field tables) regenerated into lean/RaftVerif/Generated/Tables.lean on every run"},
+]
+
 m = {
     "version": 1,
     "setup_cmd": "./check --setup",
@@ -21,14 +58,7 @@ m = {
         "source_commits": list(reversed(hooks)),
         "add_only": True,
     },
-    "engines": [
-        {"name": "E1-codec", "path": "harness/e1_codec_test.go", "serves_properties": ["C19", "C12", "C13"],
-         "kind_free_text": "differential: bytes produced/consumed by the real converters + protobuf-go vs. the Lean byte-level codec, both directions, plus truncated inputs"},
-        {"name": "E2-fstrace", "path": "harness/fstrace.go, harness/e2_fstrace_test.go, harness/e2_statesnap_test.go, harness/e2_program.go", "serves_properties": ["C12", "C13", "C14"],
-         "kind_free_text": "fault enumeration + correspondence: storage operation scripts on the real code under strace; crash images from the observed syscalls at every syscall and byte; real recovery on every image vs. sequential spec and Lean replay; syscall programs vs. the model's"},
-        {"name": "E3-handlers", "path": "harness/e3_handlers_test.go, harness/e3_vote_test.go", "serves_properties": ["C06", "C08"],
-         "kind_free_text": "differential: real RPC handler over real file-backed storage vs. the Lean model function through the line-protocol driver, bounded domains of the property, plus the property's statements as implementation-side oracles"},
-    ],
+    "engines": ENGINES,
     "checks": [],
     "not_applicable": [],
     "notes": "Technique family: machine-checked proof in Lean 4 + checked correspondence (DESIGN.md). ./check <id> is the single entry point; known findings in known_findings.json.",
